@@ -72,8 +72,8 @@ fn faults_for(cfg: &TraceCfg) -> BoxedStrategy<Vec<FaultSpec>> {
     let ss = send_stages(cfg);
     let rs = recv_stages(cfg);
     let one = prop_oneof![
-        3 => (proptest::sample::select(ss), 0u16..=40, proptest::sample::select(ERRNOS.to_vec())).prop_map(|(stage, nth, errno)| FaultSpec { stage, nth, errno }),
-        1 => (proptest::sample::select(rs), prop_oneof![0u16..=20, 0u16..=300], proptest::sample::select(vec![libc::EIO, libc::EAGAIN, libc::ECONNRESET])).prop_map(|(stage, nth, errno)| FaultSpec { stage, nth, errno }),
+        3 => (proptest::sample::select(ss), 0u16..=40, proptest::sample::select(ERRNOS.to_vec())).prop_map(|(stage, nth, errno)| FaultSpec { stage, nth, errno, repeat: 0 }),
+        1 => (proptest::sample::select(rs), prop_oneof![0u16..=20, 0u16..=300], proptest::sample::select(vec![libc::EIO, libc::EAGAIN, libc::ECONNRESET])).prop_map(|(stage, nth, errno)| FaultSpec { stage, nth, errno, repeat: 0 }),
     ];
     proptest::collection::vec(one, 0..=4).boxed()
 }
@@ -246,7 +246,7 @@ fn small_cases(tier: Tier) -> Vec<SimCase> {
         for st in &ss {
             for nth in 0..6u16 {
                 for e in ERRNOS {
-                    singles.push(FaultSpec { stage: *st, nth, errno: e });
+                    singles.push(FaultSpec { stage: *st, nth, errno: e, repeat: 0 });
                 }
             }
         }
@@ -256,7 +256,7 @@ fn small_cases(tier: Tier) -> Vec<SimCase> {
                     if *st != Stage::Read && e == libc::EAGAIN {
                         continue;
                     }
-                    singles.push(FaultSpec { stage: *st, nth, errno: e });
+                    singles.push(FaultSpec { stage: *st, nth, errno: e, repeat: 0 });
                 }
             }
         }
